@@ -10,6 +10,8 @@ and the number of bytes that got through before an error cannot be predicted) an
 * `e2e_datagram_once`     datagrams delivered at most once and unmodified
                           (round 5: including the `b=` bulk scenarios — every stream kind, both directions, more bytes than
                           the stream-level windows of plain / Chrome / Firefox clients, readers that start late)
+* `e2e_no_crash`          no panic / fatal error escapes from the endpoints (the scenarios run in a worker process; a dead worker
+                          is the observation `crash=<panic>@<function>`)
 * `e2e_transfer_completes` no path outage (every schedule here: ≤ 4 faults, delays ≤ 3 s < idle timeout) ⇒ the dial
                           succeeds and every stream is transferred completely within the deadline
 * `e2e_connection_survives` (round 4, `y=` scenarios: idle timeout T, silence q after an ACK-only tail, then a write
@@ -70,6 +72,15 @@ def step (_ : Unit) (op impl : String) : Unit × StepOut := Id.run do
   let w := words op
   let mut tags : List String := []
   let mut fails : List (String × String × String) := []
+  -- a panic / fatal error that escaped from the code under test ended the worker process (round 5)
+  if w.head? == some "run" && impl.startsWith "crash=" then
+    -- known finding C01-uquic-initial-coalesced-overflow: a spec-driven client coalesces a Handshake / 1-RTT packet behind
+    -- a uQUIC-built Initial whose trailing datagram padding is not counted; encryptPacket slices past the packet buffer
+    let cl := (field op "cl=").getD "?"
+    let overflow := cl != "plain" && (impl.splitOn "slice_bounds_out_of_range").length > 1 && (impl.splitOn "encryptPacket").length > 1
+    return ((), { model := impl, tags := ["crash"],
+                  fails := [("e2e_no_crash", if overflow then "uquic_initial_coalesced_overflow" else "-",
+                             s!"the process running the endpoints died: {impl}")] })
   if w.head? != some "run" || impl == "bad-op" || impl.startsWith "setup-error" then
     return ((), { model := impl, tags := ["bad"], fails := if impl.startsWith "setup-error" then [("e2e_setup", "-", impl)] else [] })
   let cl := (field op "cl=").getD "?"
@@ -99,6 +110,16 @@ def step (_ : Unit) (op impl : String) : Unit × StepOut := Id.run do
       if bKiB > 12288 then "bulk:>12MiB" else if bKiB > 6144 then "bulk:>6MiB" else if bKiB > 1024 then "bulk:>1MiB" else "bulk:small"]
       ++ (if bit 1 == 1 then [s!"bulk:{cl}:client-bidi"] else []) ++ (if bit 2 == 1 then [s!"bulk:{cl}:server-bidi"] else [])
       ++ (if bit 4 == 1 then [s!"bulk:{cl}:client-uni"] else []) ++ (if bit 8 == 1 then [s!"bulk:{cl}:server-uni"] else [])
+  -- handshake variants (round 5, `h=`): the same monitors judge the transfers; `zr=` only feeds the coverage tags
+  match field op "h=" with
+  | some h =>
+    tags := tags ++ [match h with
+      | "1" => "handshake:retry" | "2" => "handshake:hello-retry-request" | "3" => "handshake:0rtt" | "4" => "handshake:0rtt-server-lowered-limits"
+      | "5" => "handshake:0rtt+retry" | _ => "handshake:0rtt+hello-retry-request"]
+    match ((field impl "zr=").getD "").splitOn "," with
+    | [u, rj] => tags := tags ++ [if rj == "1" then "0rtt:rejected-redone" else if u == "1" then "0rtt:used" else "0rtt:not-attempted"]
+    | _ => pure ()
+  | none => pure ()
   for f in faults do
     match f.splitOn ":" with
     | [d, i, k, a] =>
